@@ -114,10 +114,10 @@ class _Fake_cmath(types.ModuleType):
         self.exp = exp
 
 
-def _nz(den):
-    """den (complex value) != 0"""
+def _abs2(den):
+    """|den|^2 of a complex value: den != 0 iff |den|^2 != 0"""
     re, im = den.real, den.imag
-    return A._vor(re != 0, im != 0)
+    return re * re + im * im
 
 
 class _P:
@@ -126,7 +126,7 @@ class _P:
     def __init__(self, pole, chi, den_nz, scalars, relations=()):
         self.pole = pole
         self.chi = chi  # chi(ax, omega) -> complex value
-        self.den_nz = den_nz  # den_nz(ax, omega) -> condition
+        self.den_nz = den_nz  # den_nz(ax, omega) -> list of real values |denominator|^2, assumed != 0
         self.scalars = scalars
         self.relations = list(relations)
 
@@ -163,7 +163,7 @@ def _lorentz(c, inp, dt, tag="", classes="AAA", uniform=False, orientation=None)
     def den(ax, om):
         return (w0[ax] * w0[ax] - om * om) - 1j * (g[ax] * om)
 
-    return _P(pole, lambda ax, om: (de[ax] * w0[ax] * w0[ax]) / den(ax, om), lambda ax, om: _nz(den(ax, om)), dict(kind="lorentz"))
+    return _P(pole, lambda ax, om: (de[ax] * w0[ax] * w0[ax]) / den(ax, om), lambda ax, om: [_abs2(den(ax, om))], dict(kind="lorentz"))
 
 
 def _drude(c, inp, dt, tag="", classes="AAA", uniform=False, orientation=None):
@@ -190,7 +190,7 @@ def _drude(c, inp, dt, tag="", classes="AAA", uniform=False, orientation=None):
     def den(ax, om):
         return (om * om) + 1j * (g[ax] * om)
 
-    return _P(pole, lambda ax, om: -(wp[ax] * wp[ax]) / den(ax, om), lambda ax, om: _nz(den(ax, om)), dict(kind="drude"))
+    return _P(pole, lambda ax, om: -(wp[ax] * wp[ax]) / den(ax, om), lambda ax, om: [_abs2(den(ax, om))], dict(kind="drude"))
 
 
 def _ccpr(c, inp, dt, tag="", classes="GGG", uniform=False, orientation=None):
@@ -250,7 +250,7 @@ def _ccpr(c, inp, dt, tag="", classes="GGG", uniform=False, orientation=None):
 
     def nz(ax, om):
         s = -1j * om
-        return A._vand(_nz(s - q[ax]), _nz(s - _conj(q[ax])))
+        return [_abs2(s - q[ax]), _abs2(s - _conj(q[ax]))]
 
     return _P(pole, chi, nz, dict(kind="ccpr"), relations=rel)
 
@@ -300,7 +300,7 @@ def _critical_point(c, inp, dt, tag="", classes="GGG", uniform=True, orientation
         return amp * W * (e_p / ((W - om) - 1j * G) + e_m / ((W + om) + 1j * G))
 
     def nz(ax, om):
-        return A._vand(_nz((W - om) - 1j * G), _nz((W + om) + 1j * G))
+        return [_abs2((W - om) - 1j * G), _abs2((W + om) + 1j * G)]
 
     return _P(pole, chi, nz, dict(kind="critical_point"), relations=rel)
 
@@ -322,15 +322,32 @@ def _common(c, inp):
 
 
 def _stability(c, name, c1, c2):
-    """Jury conditions and the root bound for the recurrence p' = c1 p + c2 p_prev"""
+    """Jury conditions for the recurrence p' = c1 p + c2 p_prev (together with the task `jury_theorem`
+    they give: no root of z^2 - c1 z - c2 lies outside the unit circle)"""
     c.prove(f"{name}/jury:|c2|<=1", A._vand(c2 >= -1, c2 <= 1))
     c.prove(f"{name}/jury:|c1|<=1-c2", A._vand(c1 <= 1 - c2, -c1 <= 1 - c2))
-    # direct statement: z = x + i y with z^2 - c1 z - c2 = 0  =>  |z|^2 <= 1
-    cc = ctx()
-    x, y = SymNum(cc.fresh_real("root_re")), SymNum(cc.fresh_real("root_im"))
-    re = x * x - y * y - c1 * x - c2
-    im = 2 * x * y - c1 * y
-    c.prove(f"{name}/roots_in_closed_unit_disk", x * x + y * y <= 1, extra_hyps=[A._tobool(re == 0), A._tobool(im == 0)])
+
+
+def _jury_theorem(c, inp):
+    """for ALL real k1, k2 with |k2| <= 1 and |k1| <= 1 - k2: every complex root z = x + i y of
+    z^2 - k1 z - k2 = 0 satisfies |z|^2 <= 1   (composition lemma for the per-pole Jury obligations)"""
+    k1, k2 = sym_real("k1"), sym_real("k2")
+    x, y = sym_real("root_re"), sym_real("root_im")
+    for nm, v in (("k1", k1), ("k2", k2), ("root_re", x), ("root_im", y)):
+        inp.scalar(nm, v)
+    c.assume(A._vand(k2 >= -1, k2 <= 1))
+    c.assume(A._vand(k1 <= 1 - k2, -k1 <= 1 - k2))
+    c.assume(A._tobool(x * x - y * y - k1 * x - k2 == 0))
+    c.assume(A._tobool(2 * x * y - k1 * y == 0))
+    c.cover("pre")
+    c.prove("jury=>roots_in_closed_unit_disk", x * x + y * y <= 1)
+
+
+def _tid(v):
+    """identity of a value: z3 term id for symbolic reals, the value itself otherwise"""
+    if isinstance(v, SymNum) and v.im is None and hasattr(v.re, "get_id"):
+        return ("t", v.re.get_id())
+    return ("v", v)
 
 
 def _split_inactive(triples):
@@ -361,8 +378,14 @@ def _per_axis(kind, classes, variant):
         if kind in ("lorentz", "drude"):
             c.prove("c4_is_zero", all(A.v_eq(v, 0) is True for v in c4.ravel()))
         n_ax = 1 if variant == "scalar" else 3
+        seen = set()
         for ax in range(n_ax):
             i = (0,) if variant == "scalar" else (0, ax)
+            key = (_tid(c1[i]), _tid(c2[i]))
+            if key in seen:
+                c.prove(f"axis{ax}/jury:same_coefficients_as_an_earlier_axis", True)
+                continue
+            seen.add(key)
             _stability(c, f"axis{ax}", c1[i], c2[i])
         # inverse mapping
         if variant == "scalar":
@@ -379,16 +402,16 @@ def _per_axis(kind, classes, variant):
             for j in range(3):
                 for k in range(3):
                     if j == k:
-                        prove_rational_equal(c, f"chi_from_coefficients[{j},{j}]==declared", chi.at_index((4 * j,)), P.chi(j, om), [P.den_nz(j, om)], relations=P.relations)
+                        prove_rational_equal(c, f"chi_from_coefficients[{j},{j}]==declared", chi.at_index((4 * j,)), P.chi(j, om), relations=P.relations, nonzero_terms=P.den_nz(j, om))
                     else:
                         prove_rational_equal(c, f"chi_from_coefficients[{j},{k}]==0", chi.at_index((3 * j + k,)), 0, [])
         for ax in range(n_ax):
-            hyp = [P.den_nz(ax, om)]
+            nzt = P.den_nz(ax, om)
             want = P.chi(ax, om)
             if variant != "tensor":
                 got = chi.at_index(()) if variant == "scalar" else chi.at_index((ax,))
-                prove_rational_equal(c, f"chi_from_coefficients[{ax}]==declared", got, want, hyp, relations=P.relations)
-            prove_rational_equal(c, f"DispersionModel.susceptibility_axes[{ax}]==declared", own[ax], want, hyp, relations=P.relations)
+                prove_rational_equal(c, f"chi_from_coefficients[{ax}]==declared", got, want, relations=P.relations, nonzero_terms=nzt)
+            prove_rational_equal(c, f"DispersionModel.susceptibility_axes[{ax}]==declared", own[ax], want, relations=P.relations, nonzero_terms=nzt)
 
     return body
 
@@ -416,19 +439,19 @@ def _oriented(kind, pattern):
         c1, c2, c3, c4 = D.compute_pole_coefficients_tensor((P.pole,), dt)
         c.prove("shapes", tuple(x.shape for x in (c1, c2, c3, c4)) == ((1, 3), (1, 3), (1, 9), (1, 9)))
         c.prove("c4_is_zero", all(A.v_eq(v, 0) is True for v in c4.ravel()))
-        for ax in range(3):
-            _stability(c, f"axis{ax}", c1[0, ax], c2[0, ax])
+        _stability(c, "axis0", c1[0, 0], c2[0, 0])
+        c.prove("recurrence_coefficients_uniform_over_axes", all(_tid(c1[0, a]) == _tid(c1[0, 0]) and _tid(c2[0, a]) == _tid(c2[0, 0]) for a in range(3)))
         # the mask of entry (j,k) is (c1_j != 0) | (c3_jk != 0): decide it on this path
         _split_inactive([(c1[0, j], c3[0, 3 * j + k], c4[0, 3 * j + k]) for j in range(3) for k in range(3)])
         chi = D.susceptibility_from_coefficients(c1, c2, c3, om, dt, c4)
         c.prove("chi_shape", chi.shape == (9,))
         own = D.DispersionModel(poles=(P.pole,)).susceptibility_tensor(om)
-        hyp = [P.den_nz(0, om)]
+        nzt = P.den_nz(0, om)
         want = P.chi(0, om)
         for j in range(3):
             for k in range(3):
-                prove_rational_equal(c, f"chi_from_coefficients[{j},{k}]==chi_p*u{j}*u{k}", chi.at_index((3 * j + k,)), want * u[j] * u[k], hyp, relations=P.relations)
-                prove_rational_equal(c, f"DispersionModel.susceptibility_tensor[{j},{k}]==chi_p*u{j}*u{k}", own[j, k], want * u[j] * u[k], hyp, relations=P.relations)
+                prove_rational_equal(c, f"chi_from_coefficients[{j},{k}]==chi_p*u{j}*u{k}", chi.at_index((3 * j + k,)), want * u[j] * u[k], relations=P.relations, nonzero_terms=nzt)
+                prove_rational_equal(c, f"DispersionModel.susceptibility_tensor[{j},{k}]==chi_p*u{j}*u{k}", own[j, k], want * u[j] * u[k], relations=P.relations, nonzero_terms=nzt)
 
     return body
 
@@ -468,10 +491,10 @@ def _sum_of_poles(variant):
         chi = D.susceptibility_from_coefficients(c1, c2, c3, om, dt, c4)
         own = D.DispersionModel(poles=(P1.pole, P2.pole)).susceptibility_axes(om)
         for ax in range(3):
-            hyp = [P1.den_nz(ax, om), P2.den_nz(ax, om)]
+            nzt = P1.den_nz(ax, om) + P2.den_nz(ax, om)
             want = P1.chi(ax, om) + P2.chi(ax, om)
-            prove_rational_equal(c, f"chi_from_coefficients[{ax}]==sum_declared", chi.at_index((ax,)), want, hyp, relations=P1.relations + P2.relations)
-            prove_rational_equal(c, f"DispersionModel.susceptibility_axes[{ax}]==sum_declared", own[ax], want, hyp, relations=P1.relations + P2.relations)
+            prove_rational_equal(c, f"chi_from_coefficients[{ax}]==sum_declared", chi.at_index((ax,)), want, relations=P1.relations + P2.relations, nonzero_terms=nzt)
+            prove_rational_equal(c, f"DispersionModel.susceptibility_axes[{ax}]==sum_declared", own[ax], want, relations=P1.relations + P2.relations, nonzero_terms=nzt)
 
     return body
 
@@ -525,16 +548,16 @@ def _zero_padding(num_components, coupling_components):
                 else:
                     j = k = comp
                 want = 0
-                hyp = []
+                nzt = []
                 for P in ps:
                     oriented = P.pole.is_oriented
                     if oriented:
                         want = want + P.chi(0, om) * orient[j] * orient[k]
-                        hyp.append(P.den_nz(0, om))
+                        nzt += P.den_nz(0, om)
                     elif j == k:
                         want = want + P.chi(j, om)
-                        hyp.append(P.den_nz(j, om))
-                prove_rational_equal(c, f"{name}/chi[{comp}]==sum_of_own_poles", chi.at_index((comp,)), want, hyp)
+                        nzt += P.den_nz(j, om)
+                prove_rational_equal(c, f"{name}/chi[{comp}]==sum_of_own_poles", chi.at_index((comp,)), want, nonzero_terms=nzt)
 
     return body
 
@@ -574,6 +597,7 @@ def tasks(tier, seed):
     for kind in ("lorentz", "drude", "ccpr"):
         for pat in patterns if kind == "lorentz" or tier == "thorough" else patterns[:1]:
             out[f"oriented/{kind}/{pat}"] = Task(_oriented(kind, pat), extra_patch=_PATCH)
+    out["jury_theorem"] = Task(_jury_theorem)
     out["oriented/negative_coupling_rejected"] = Task(_oriented_negative_coupling, extra_patch=_PATCH)
     out["sum/lorentz+drude"] = Task(_sum_of_poles("lorentz+drude"), extra_patch=_PATCH)
     out["sum/lorentz+ccpr"] = Task(_sum_of_poles("lorentz+ccpr"), extra_patch=_PATCH)
